@@ -546,6 +546,12 @@ def bounded_values():
         d = t._asdict()
         if list(d) != list(t._fields) or any(d[f] is not getattr(t, f) for f in t._fields):
             bad.append(('_asdict', repr(t)))
+        # the fields are what the CLASS declares: an attribute a user put on the instance is no field, a field is one whatever its value
+        t2 = t._replace(v=t.v)
+        t2.note, t2.k = 'mine', None
+        d2 = t2._asdict()
+        if list(d2) != list(t._fields) or d2['k'] is not None or t2 != t._replace(k=None) or hash(t2) != hash(t._replace(k=None)):
+            bad.append(('_asdict / == / hash look at instance attributes instead of the declared fields', repr(t), repr(d2)))
         r = t._replace(v=None)
         if r is t or r.v is not None or r.k is not t.k or t.v is None or dict(r._metadata._fields) != dict(t._metadata._fields):
             bad.append(('_replace', repr(t)))
